@@ -6,9 +6,11 @@ reg = json.load(open(f"{V}/harness/registry.json"))
 TECH = "bounded symbolic execution of the real Go code (go/ssa) and the real SQL statement constants over a symbolic database, obligations decided by SMT (cvc5 1.0.x primary; z3 4.8.12 / z3 5.1.0 fallback)"
 TEXT = {
  "C01": ("Write-once completion and immutable creation fields are proved as a two-state guarantee (G1) plus invariant (I2) for every store transaction that the promise coroutines (read/create/complete, callback/subscription registration, background time-out sweep) can commit from ANY invariant-satisfying database with <= N rows per table, under arbitrary interference by other requests before every store submission and with injected before/after-commit failures; every promise body in a response is compared with the row at its linearization point. Unsat within the bounds = holds for every value of ids, keys, values, tags, times and table contents; tests only sample a few sequential histories.", "3, 4/C01"),
+ "C02": ("Linearizability through a rely/guarantee reduction (see evidence explanation): per-request obligations (response = sequential reference on the state of the decisive transaction; single effect) for all request kinds under arbitrary interference, plus inductiveness of the interference abstraction. This reaches every interleaving and batching of any number of requests within the row bounds, which porcupine on one seed cannot; it is weaker than an explicit product construction in that it relies on Inv/G being proved for every coroutine (it is).", "3, 4/C02"),
  "C03": ("Differential check of the real CreatePromise/CompletePromise coroutines against the reference table of the statement (DESIGN App. B) for every stored state (absent, pending, overdue, any completed state, any stored keys) and every request (key absent/equal/different, strict, state, time before/at/after the timeout), under interference and store faults; at most one insert and one pending->completed transition per id follows from G1 (checked on every commit).", "4/C03"),
  "C04": ("Exact time-outs: for symbolic tick times around the timeout the solver shows no response of read/create/complete reports pending at or after the deadline, every stored time-out happens at a tick >= timeout with empty value and completed_on = timeout, and a completion at or after the deadline never installs the caller's state/value; the sweep only touches pending overdue rows. The clock is a symbolic monotone sequence, so the boundary tick (clock == timeout) is covered, which the 1-second-tick test never hits.", "4/C04"),
  "C05": ("The real four-command completion transaction is executed on both backends' handlers over an arbitrary database: every registration of the promise becomes exactly one task with copied fields and is deleted, nothing else changes; the registration coroutines are checked under interference for 'acknowledged => reported completed or registration stored'. Invariant I3 (no registration outlives its promise) is re-proved for every commit of every promise coroutine.", "4/C05"),
+ "C06": ("All-or-nothing at the store boundary under a symbolic fault position, acknowledgement only after commit, and the state invariant after every single commit of every coroutine (so any crash point between commits leaves a consistent state). The physical durability of the SQL engines is assumed.", "4/C06"),
  "C07": ("ClaimTask is checked against the statement's table for every (state, counter, request) combination under interference and faults, and the lexicographic monotonicity of (counter, state rank) (G2) plus I4 is proved for every transaction it commits; the task statements (update/heartbeat/complete-by-root) are checked as conditional writes on both backends.", "4/C07"),
  "C08": ("Routed creation (promise + invocation task in one transaction iff the router matched, with the router's receiver), create-with-task (refused without trace unless routed; otherwise promise and claimed task in one step), the completion transaction (all outstanding tasks of the root completed in the same step) and one dispatch cycle (only Init tasks with the read counter, one per root, none with an enqueued/claimed sibling; Enqueued only after a successful hand-off, failed hand-offs retried, notifications finished after the first attempt; hrefs name id and counter) are checked against the statement for arbitrary databases, router and sender outcomes.", "4/C08"),
  "C11": ("Convergence is decided as ranking lemmas (see explanation in the evidence): progress of min(batch, overdue) per fault-free instance for each of the five sweeps, termination of every path of every background coroutine under injected failures, and exactness of the sweeps' selects on both backends.", "4/C11"),
@@ -16,6 +18,8 @@ TEXT = {
  "C13": ("Panic reachability: SMT decides for every path of every gRPC handler (symbolic request, real coroutine behind it), of the stored-data decoders and of every background coroutine whether a Go panic / failed assertion / nil dereference is reachable; a model is a concrete crashing request or stored value. Ten such defects were found, demonstrated natively and repaired (see known_findings.txt).", "4/C13"),
  "C15": ("Status tables are total on every status constant declared in the current source and map to the code of their class; for each gRPC handler the reply produced from the real kernel outcome agrees with it (flags, codes, exactly one reply).", "4/C15"),
  "C17": ("Translation validation of the two store backends: 27 command kinds x (same error, same result, same post-database) + schema comparison, all decided by SMT over the two real handlers and their own SQL texts; any edit to postgres.go that changes a guard, an argument binding or a SET list yields a model.", "4/C17"),
+ "C18": ("The connection table and delivery step of the poll transport for every bounded operation sequence with symbolic groups/ids (the solver decides which coincide), buffer sizes and limits.", "4/C18"),
+ "C20": ("Verbatim storage and exact id matching as SMT-decided equalities over arbitrary values through the real handlers, conversions and gRPC field copies.", "4/C20"),
  "C19": ("Each clause of receiver resolution is an SMT obligation over the real router and sender code for arbitrary tag values / stored receivers / plugin availability.", "4/C19"),
  "C14": ("Search statements of both backends are checked against the specification of a page for arbitrary tables, patterns, state masks, tags, limits and cursors; the coroutine's cursor logic (present iff page full, same query, SortId = last row) and the lazily timed-out rows are checked under interference; a two-page induction step shows no row is skipped or repeated when a cursor is followed while other requests interleave.", "4/C14"),
  "C09": ("The four lock coroutines run on an arbitrary lock table under interference and faults: acquire is refused iff another execution holds the resource (whatever its expiry) and otherwise sets owner/ttl/expiry = t + ttl; release removes exactly the caller's own lock; heartbeat extends exactly the rows of that process to t + ttl and never creates or transfers a lock; the sweep deletes exactly rows with expires_at <= t. Every lock row of another execution is shown unchanged by each transaction.", "4/C09"),
@@ -24,9 +28,11 @@ TEXT = {
 }
 NOTE = {
  "C01": "Trusted: the SQL statement model (DESIGN 2.5), json/gocoro/database-sql stubs (2.4), atomicity of one SQL transaction; bounds: 2-3 promise rows, 1-2 callbacks, 2-3 tasks, fault budget 1 (quick) / 2 (thorough), tail-recursive retries cut. Outside: wire rendering, crash/restart.",
+ "C02": "Trusted as C01. No explicit pairwise product; see outside_the_claim in the evidence.",
  "C03": "Trusted as C01; header parsing of key/strict flag is outside.",
  "C04": "Trusted as C01 plus: tick time = time at which a coroutine's transactions are built, wall clock monotone. One known finding (create with an already expired timeout answers PENDING).",
  "C05": "Trusted as C01. Three known findings (D1 registration racing completion; losing completion finishes notification tasks; see known_findings.txt).",
+ "C06": "Trusted as C01; durability of the SQL engines assumed; restart not executed.",
  "C07": "Trusted as C01; only ClaimTask at coroutine level so far, the other task coroutines are covered at statement level.",
  "C08": "Trusted as C01; Sender/Router completions arbitrary. One known finding (router error stores the promise without its task).",
  "C11": "Trusted as C01; sequential (fault-free, interference-free) runs for the progress lemmas by definition of the lemma. One known finding (id collision blocks the time-out of a promise for ever).",
@@ -34,6 +40,8 @@ NOTE = {
  "C13": "Trusted as C01 plus the front-end stubs (protobuf structs as plain Go values, jwt fork, json contracts). HTTP handlers are not executed.",
  "C15": "Trusted as C13; HTTP side not executed.",
  "C17": "Trusted: the SQL statement model is the same for both dialects except the declared differences. Known findings: the Postgres 32-bit INTEGER columns (5 entries).",
+ "C18": "Trusted: bounded non-blocking channel model; goroutine timing outside. k = 3 operations quick, 4 thorough.",
+ "C20": "Trusted as C01/C13; wire encodings outside.",
  "C19": "Trusted: json/url contracts as stated; recording plugins stand for the real transports.",
  "C14": "Trusted as C01 plus LIKE/tag-matching contracts; page sizes 1..3, 2-3 rows.",
  "C09": "Trusted as C01; bounds: 2 lock rows (3 thorough), ttl and clock < 2^62.",
